@@ -73,6 +73,8 @@ func C13(c *Ctx) {
 
 func C15(c *Ctx) {
 	R15Socks(c)
+	// relayed bytes reach the agent in order only if a check-in hands out a prefix of the queue
+	R4QueueShape(c)
 	R15FieldLoops(c)
 	R15TypedNil(c)
 	R15AgentClose(c)
@@ -151,6 +153,8 @@ func C11(c *Ctx) {
 	R1IndexSentinel(c)
 	R1DownScanFirst(c)
 	R13EventLog(c)
+	// the retained Listener.Add event is pruned only if ListenerRemove gets past the database delete
+	R12RemoveIdempotent(c)
 	R13Deadline(c)
 	R13Regenerated(c)
 	R3LockPair(c, func(fn, lock string) bool {
@@ -309,6 +313,7 @@ func C07(c *Ctx) {
 }
 
 func C09(c *Ctx) {
+	R8IDWidth(c)
 	R1IndexSentinel(c)
 	R1DownScanFirst(c)
 	R9DBAnswers(c)
@@ -361,7 +366,19 @@ func C17(c *Ctx) {
 		}
 	}
 	R1Bounds(c, tp, "-template", 8)
+	var more []*ssa.Function
+	for _, fn := range c.P.ModuleFuncs(func(p string) bool { return p == PkgYaotl+"/hclsyntax" || p == PkgJSON }) {
+		if fn.Blocks == nil || !fn.Pos().IsValid() {
+			continue
+		}
+		f := c.P.Fset.Position(fn.Pos()).Filename
+		if strings.HasSuffix(f, "/hclsyntax/parser.go") || strings.HasSuffix(f, "/json/didyoumean.go") || strings.HasSuffix(f, "/json/parser.go") || strings.HasSuffix(f, "/hclsyntax/didyoumean.go") {
+			more = append(more, fn)
+		}
+	}
+	R1Bounds(c, more, "-parser", 8)
 	R21TemplateEnd(c)
 	R21ScanOrigin(c)
 	R21RangeAssigned(c)
+	R21BodyPlaceholder(c)
 }
